@@ -283,6 +283,8 @@ def all_constructors():
         out.append(g("Make", type=t))
     out.append(g("OneOf", gens=[g("Make", type="local1"), g("Make", type="local2"), g("Make", type="local1")]))
     out += [g("StringOfN", elem=g("RuneSampled", items=["97", "233", "0xD800", "0x4e16", "98", "0xDFFF", "0x10FFFF", "0x110000", "-1"]), minLen=0, maxLen=6, maxBytes=7)]
+    out += [g("Permutation", items=["3", "4"]), g("Permutation", items=["30", "10", "20"]), g("FilterSiblings", minLen=3), g("FilterSiblings", minLen=1),
+            g("FilterSiblings", minLen=5), g("MapSampled")]
     out += [g("RecTree"), g("SliceOfN", elem=g("RecTree"), minLen=2, maxLen=4)]     # recursion through Deferred: one generator object active several times at once
     el = g("IntRange", min="0", max="2")
     out += [g("SliceOf", elem=g("Int8")), g("SliceOfN", elem=g("Bool"), minLen=0, maxLen=0), g("SliceOfN", elem=g("Bool"), minLen=4, maxLen=4),
